@@ -187,6 +187,33 @@ for pname, (pf, vals, fmap, optkind) in PARSERS.items():
         a = pf(arr_np, library="np"); b = pf(arr_ak, library="ak"); n_eval += 1
         for k in fmap:
             if col(a, k) != col(b, k): report(f"C14:np-vs-ak:{pname}:{k}", "library='np' and library='ak' outputs differ", {"parser": pname})
+# ---- parse_mdc_digi / parse_emc_digi (records of raw digi fields in, records out): pass-through fields unchanged, id fields = the
+#      id parser's, nesting preserved, flat / ragged / single-event inputs
+for pname, idp, ids, extra_in, extra_out in (
+        ("parse_mdc_digi", det.parse_mdc_digi_id, mdc_ids, {"m_timeChannel": "time_channel", "m_chargeChannel": "charge_channel", "m_trackIndex": "track_index", "m_overflow": "overflow"}, "digi_id"),
+        ("parse_emc_digi", det.parse_emc_digi_id, emc_ids, {"m_timeChannel": "time_channel", "m_chargeChannel": "charge_channel", "m_trackIndex": "track_index", "m_measure": "measure"}, "digi_id")):
+    pf = getattr(det, pname, None) or getattr(p3, pname)
+    cols = {"m_intId": np.array(ids, dtype=np.uint32)}
+    for j, k in enumerate(extra_in): cols[k] = np.array([rng.randrange(1 << 16) for _ in range(N)], dtype=np.uint32)
+    flat = ak.zip({k: ak.Array(v) for k, v in cols.items()})
+    for kind, x in (("ak.flat", flat), ("ak.ragged", ak.unflatten(flat, cuts)), ("ak.event", ak.unflatten(flat, cuts)[2])):
+        for wp in (False, True):
+            tag = f"{pname}|{kind}|with_pos={wp}"
+            try:
+                r = pf(x, with_pos=wp); n_eval += 1
+                ref = idp(x["m_intId"], with_pos=wp)
+                bad = None
+                for k in ref.fields:
+                    if canon(ak.to_list(r[k])) != canon(ak.to_list(ref[k])): bad = k
+                for kin, kout in extra_in.items():
+                    if canon(ak.to_list(r[kout])) != canon(ak.to_list(x[kin])): bad = kout
+                if canon(ak.to_list(r[extra_out])) != canon(ak.to_list(x["m_intId"])): bad = extra_out
+                if ak.to_list(ak.num(r[extra_out], axis=-1) if r[extra_out].ndim > 1 else len(r[extra_out])) != ak.to_list(ak.num(x["m_intId"], axis=-1) if x["m_intId"].ndim > 1 else len(x["m_intId"])): bad = "nesting"
+                matrix[tag] = "ok" if bad is None else "differs"
+                if bad: report(f"C14:parser-field:{pname}:{bad}:{kind}", f"{pname} field {bad} differs from the id parser / the input digi field ({kind}, with_pos={wp})", {"parser": pname, "kind": kind})
+            except Exception as e:
+                matrix[tag] = f"raises {type(e).__name__}"
+                report(f"C14:raises:{pname}:{kind}:{type(e).__name__}", f"{pname}({kind}, with_pos={wp}) raised {type(e).__name__}: {str(e)[:160]}", {"parser": pname, "kind": kind})
 kinds = sorted({k.split("|")[1] for k in matrix})
 print(json.dumps({"evaluations": n_eval, "violations": viol, "functions": len(SPEC) + 2, "parsers": len(PARSERS), "container_kinds": kinds,
                   "configurations": len(matrix), "not_ok": {k: v for k, v in matrix.items() if v not in ("ok", "raises-like-flatten")}, "sample": sample}))
